@@ -11,8 +11,10 @@ import (
 
 	"github.com/EliCDavis/polyform/formats/spz"
 	"github.com/EliCDavis/polyform/modeling"
+	"github.com/EliCDavis/polyform/nodes"
 
 	"verif/harness/core"
+	"verif/harness/meshlib"
 )
 
 // Part (b): SPZ. Reference encoder written from the published layout (nianticlabs/spz, as quoted in
@@ -243,6 +245,15 @@ func (k *checker) spzCase(f SpzFile, scope string) {
 	}
 	outcome := "ok"
 	defer func() { c.Eval(scope, outcome) }()
+	// the node-graph entry point decodes the same stream to the same cloud
+	if f.Reader == rdAll {
+		var nm modeling.Mesh
+		var nerr error
+		if g := core.Guard(func() { nm, nerr = spz.ReadNodeData{Data: nodes.Value(append([]byte{}, data...)).Out()}.Process() }); g.Panicked || nerr != nil || meshlib.QuickHash(nm) != meshlib.QuickHash(cloud.Mesh) {
+			outcome = "mismatch"
+			k.fail("spz.ReadNodeData.Process", "the node-graph entry point decodes a stream to the cloud spz.Read decodes it to", hclass, fmt.Sprint("node result differs from spz.Read's ", g.Msg, " ", nerr), cs)
+		}
+	}
 	if n > 0 {
 		c.Nontrivial("spz", raw, f.Container, f.Reader)
 	}
